@@ -5,5 +5,5 @@ git -C /repo diff --quiet || { echo "/repo not clean"; exit 2; }
 git -C /repo apply /verif/seeded/$NAME/patch.diff || exit 2
 touch /tmp/.seedstamp; trap 'git -C /repo checkout -- . ; find /verif/replays -type f -newer /tmp/.seedstamp -delete' EXIT
 for s in "$@"; do
-  echo "$NAME vs $PROP seed=$s: $(VERIF_SEED=$s /verif/run.py $PROP --no-evidence 2>&1 | grep -c '^VIOLATION') violation lines"
+  echo "$NAME vs $PROP seed=$s: $(VERIF_SEED=$s /verif/run.py $PROP --no-evidence $EXTRA 2>&1 | grep -c '^VIOLATION') violation lines"
 done
